@@ -51,6 +51,22 @@ theorem cex_negative_relative :
     (match parseLql gcfg lqlFmts fnow [45, 45, 53, 109] with | .rel u num _ => some (u, num) | _ => none) = some (109, [45, 53]) := by
   decide +kernel
 
+/-! F71 — `DateTime.Capture` / `buildTsCond` call `time.Time.UnixNano()`, which computes `sec·10⁹ + nsec` in `int64`
+(wrap-around; Go documents the result as undefined outside 1678..2262). -/
+
+/-- Go's `int64` arithmetic: two's complement wrap-around -/
+def wrapI64 (x : Int) : Int := (x + 9223372036854775808) % 18446744073709551616 - 9223372036854775808
+
+/-- `Time.UnixNano()` = `(t.sec() + internalToUnix) * 1e9 + int64(t.nsec())` in `int64` -/
+def unixNanoGo (unixSec nsec : Int) : Int := wrapI64 (wrapI64 (unixSec * 1000000000) + nsec)
+
+/-- **F71, outside int64 nanoseconds**: 2999-12-31 00:00:00 UTC is 32 503 593 600 s after the epoch; its `UnixNano()` wraps to
+−4 389 894 547 419 103 232 ns, i.e. 4 389 894 548 s BEFORE the epoch (November 1830) — a RANGE that starts there. Inside the
+range the function is exact (2262-04-11 23:47:16 is the last whole second). -/
+theorem cex_unixnano_wraps :
+    unixNanoGo 32503593600 0 = -4389894547419103232 ∧ (-4389894547419103232 : Int) / 1000000000 = -4389894548 ∧
+    unixNanoGo 9223372036 0 = 9223372036000000000 ∧ unixNanoGo 9223372037 0 < 0 := by decide +kernel
+
 /-- **F72, zone abbreviation**: `2019-03-11 10:00:00 PST` is 10:00 in a fabricated zone of offset 0 (18:00 UTC is meant) -/
 theorem cex_zone_abbreviation :
     parseFirst gadj colFmts fnow [50, 48, 49, 57, 45, 48, 51, 45, 49, 49, 32, 49, 48, 58, 48, 48, 58, 48, 48, 32, 80, 83, 84]
